@@ -16,6 +16,28 @@ CLAIMED = {
              "write_continue/write_lines. The Fortran 132-column clause is validated on corpus output only (not a theorem).",
         technique="Coq proof over hand model + extracted-model correspondence",
         design="4/C13"),
+    "C12": dict(
+        text="Coq theorems over executable models of splicer.get_splicers and util._create_splicer (+ write_lines): a block with any "
+             "dotted name and any body without an end marker is read back exactly (trailing blanks stripped); any number of blocks "
+             "with text in between; the marker lines Shroud writes are recognised by its reader for every blank-free name; "
+             "force > user > default; regenerate round trip; lines reach the file verbatim (partial: no TAB/FF, no trailing '+'), "
+             "full statement refuted with two witnesses = known findings. Tie: extracted model vs real functions on random "
+             "files; end-to-end real runs with user bodies via splicer files, splicer_code and declaration splicers.",
+        note="Trusted: Coq kernel, extraction, harness. PyYAML and Python's text layer not modelled. Known findings: TAB/FF and "
+             "trailing '+' in user lines, generated getter/setter blocks ignore user code.",
+        technique="Coq proof over hand model + extracted-model correspondence + end-to-end oracle",
+        design="4/C12"),
+    "C14": dict(
+        text="Coq theorems over a heap model of util.Scope: inheritance, a container setting reaches every nested scope that does "
+             "not rebind it and equals setting it there, siblings/parents/other keys unaffected, clone and empty child scopes "
+             "transparent, lookups terminate; and over the --option value parser: booleans, non-numeric strings and all integers "
+             "(after fix b89c951) equal the YAML value. Tie: extracted model vs util.Scope on random operation sequences, vs "
+             "main_with_args for option values; whole-run relations (container vs children, inline vs dict attributes, YAML vs CLI, "
+             "create_wrapper vs CLI) byte-compared on the implementation.",
+        note="Trusted: Coq kernel, extraction, harness. Not modelled: which options each emitter reads (the relations are checked on "
+             "real runs of a generated nested library), name-mangled private slots of Scope.",
+        technique="Coq proof over hand model + extracted-model correspondence + whole-run relation oracle",
+        design="4/C14"),
 }
 
 PENDING = {}
